@@ -397,6 +397,34 @@ def extras(numeric, seed):
         outm[safe] = [(p.x, p.y, p.z, p.vx, p.vy, p.vz) for p in sim.particles]
     d = max(abs(a - b) for p, q in zip(outm[True], outm[False]) for a, b in zip(p, q))
     numeric.append({"cfg": "mercurius: new critical radii / coordinates requested mid-run, safe vs deferred (moving frame)", "fam": "mercurius", "diff": d, "ref": None})
+    # (d) integrate() after manual steps that left the state unsynchronised: a call whose target is the current time synchronises (and says
+    #     so), a call that ends inside the next step (exact finishing) completes the deferred half step with the old step size first
+    for fam, coord in (("whfast", "jacobi"), ("whfast", "democraticheliocentric"), ("saba", "jacobi"), ("mercurius", "-")):
+        outi = {}
+        for safe in (True, False):
+            for case in ("noop", "inside"):
+                cfg = dict(base, fam=fam, coord=coord, safe=safe)
+                sim = build(cfg, random.Random(seed))
+                sim.dt = abs(sim.dt)
+                sim.steps(7)
+                try:
+                    sim.integrate(sim.t if case == "noop" else sim.t + 0.37 * sim.dt, exact_finish_time=1)
+                except Exception as e:  # noqa: BLE001
+                    numeric.append({"cfg": "integrate after manual steps raised %s (%s/%s)" % (str(e)[:60], fam, coord), "fam": fam, "diff": 1.0, "ref": None})
+                    continue
+                ri = {"whfast": sim.ri_whfast, "saba": sim.ri_saba, "mercurius": sim.ri_mercurius}[fam]
+                flag = int(ri.is_synchronized)
+                before = [(p.x, p.y, p.z, p.vx, p.vy, p.vz) for p in sim.particles]
+                sim.synchronize()
+                after = [(p.x, p.y, p.z, p.vx, p.vy, p.vz) for p in sim.particles]
+                outi[(safe, case)] = after
+                if flag != 1 or before != after:
+                    numeric.append({"cfg": "integrate(%s) after manual steps leaves the state unsynchronised (%s/%s safe_mode=%d, is_synchronized=%d)"
+                                           % ("t" if case == "noop" else "t + 0.37 dt", fam, coord, int(safe), flag), "fam": fam, "diff": 1.0, "ref": None})
+        for case in ("noop", "inside"):
+            if (True, case) in outi and (False, case) in outi:
+                d = max(abs(a - b) for p, q in zip(outi[(True, case)], outi[(False, case)]) for a, b in zip(p, q))
+                numeric.append({"cfg": "integrate(%s) after manual steps: %s/%s safe vs deferred" % ("t" if case == "noop" else "t + 0.37 dt", fam, coord), "fam": fam, "diff": d, "ref": None})
     out = {}
     for safe in (True, False):
         cfg = dict(base, fam="whfast", safe=safe)
